@@ -70,6 +70,8 @@ const SIG_HEADER_COMMENT: &str = "C15/reread-differs/comment-after-block-scalar-
 const SIG_FOLDED_LEAD: &str = "C15/reread-differs/folded-leading-blank-lines";
 const SIG_FOLDED_KEEP: &str = "C15/reread-differs/folded-keep-trailing-line-break-added";
 const SIG_NESTED_ANCHOR: &str = "C15/alias-soundness/unknown-anchor/after-write";
+/// C14's open loader finding, met in the emitter's own output
+const SIG_LOADER_COL0: &str = "C15/reread-differs/loader-empty-value-then-col0-quoted-key";
 
 #[derive(Clone, Debug)]
 pub struct Case {
@@ -469,6 +471,44 @@ fn strip_colon_comments_on_keyless_lines(y: &[u8]) -> Option<Vec<u8>> {
     }
 }
 
+/// `y` with ` null` written after every block mapping key that has an empty value and is
+/// followed by a column-0 line starting with a quoted key (the trigger shape of C14's open
+/// loader finding `empty-value-then-col0-quoted-key`); None if the shape does not occur.
+fn spell_empty_values_before_col0_quoted_keys(y: &[u8]) -> Option<Vec<u8>> {
+    let t = String::from_utf8_lossy(y);
+    let lines: Vec<&str> = t.split_inclusive('\n').collect();
+    let mut out = String::with_capacity(t.len() + 16);
+    let mut found = false;
+    for (i, line) in lines.iter().enumerate() {
+        let body = line.trim_end_matches('\n');
+        // `key:` optionally followed by a comment, nothing else
+        let code = match (body.find(" #"), body.find("\t#")) {
+            (Some(a), Some(b)) => &body[..a.min(b)],
+            (Some(a), None) | (None, Some(a)) => &body[..a],
+            _ => body,
+        };
+        let code_trim = code.trim_end();
+        let next_content = lines[i + 1..].iter().map(|l| l.trim_end_matches('\n')).find(|l| !l.trim().is_empty() && !l.trim_start().starts_with('#'));
+        let next_is_col0_quoted = matches!(next_content, Some(n) if n.starts_with('"') || n.starts_with('\''));
+        if code_trim.ends_with(':') && !code_trim.is_empty() && next_is_col0_quoted {
+            found = true;
+            out.push_str(code_trim);
+            out.push_str(" null");
+            out.push_str(&body[code_trim.len()..]);
+            if line.ends_with('\n') {
+                out.push('\n');
+            }
+        } else {
+            out.push_str(line);
+        }
+    }
+    if found {
+        Some(out.into_bytes())
+    } else {
+        None
+    }
+}
+
 fn tmp_named(stem: &str, ext: &str, data: &[u8]) -> std::path::PathBuf {
     let mut p = cli::tmp_file(stem).into_os_string();
     p.push(ext);
@@ -575,6 +615,21 @@ fn check_once(case: &Case, indent: u8, st: &mut Stats) -> Result<Outcome, Fail> 
         cleanup(None);
         return Ok(Outcome::ScalarResult);
     }
+    // R: read Y back. `reread_matches` is the same step on a *patched* copy of Y, used to
+    // decide whether a failure is owed to a documented / already listed loader problem.
+    let reread_matches = |text: &[u8], st: &mut Stats| -> bool {
+        let f = tmp_named("c15y", ".yaml", text);
+        let r = spawn(&["yq", "-o", "json", "-I0", ".", &f.to_string_lossy()]);
+        st.evals(1);
+        let _ = std::fs::remove_file(&f);
+        match r {
+            Some(r) if r.ok() => match jsonval::parse_stream(&r.stdout) {
+                Ok(v) => v.len() == jvals.len() && v.iter().zip(jvals.iter()).all(|(a, b)| j_eq(a, b)),
+                Err(_) => false,
+            },
+            _ => false,
+        }
+    };
     let yf = tmp_named("c15y", ".yaml", &y.stdout);
     let yfs = yf.to_string_lossy().to_string();
     let r = spawn(&["yq", "-o", "json", "-I0", ".", &yfs]);
@@ -587,52 +642,65 @@ fn check_once(case: &Case, indent: u8, st: &mut Stats) -> Result<Outcome, Fail> 
     if r.crashed() {
         return Err(crash_fail("reread", &r, case));
     }
-    if !r.ok() {
-        if let Some(y2) = strip_colon_comments_on_keyless_lines(&y.stdout) {
-            // documented loader limitation (docs/compliance/yaml/limitations.md, "A key run
-            // that ends before its `:`": `b #c: d` -> KeyWithoutValue; `- *a #c:` fails the
-            // same way with "expected ':' after key"): a comment containing `: ` (or ending
-            // in `:`) was re-emitted on a line that has no `key:` of its own. Counted as
-            // such only if the output reads back correctly once just those comments are cut.
-            let yf2 = tmp_named("c15y", ".yaml", &y2);
-            let r2 = spawn(&["yq", "-o", "json", "-I0", ".", &yf2.to_string_lossy()]);
-            st.evals(1);
-            let _ = std::fs::remove_file(&yf2);
-            if let Some(r2) = r2 {
-                if r2.ok() {
-                    if let Ok(v2) = jsonval::parse_stream(&r2.stdout) {
-                        if v2.len() == jvals.len() && v2.iter().zip(jvals.iter()).all(|(a, b)| j_eq(a, b)) {
-                            return Ok(Outcome::DocumentedLimit);
-                        }
-                    }
-                }
-            }
-        }
+    let failure: Option<Fail> = if !r.ok() {
         if err_head(&r).contains("unknown anchor") {
             // an alias without its anchor: name the route (DOM path after a write, or the
             // streaming path)
             let route = if program_writes(&case.program) { "after-write" } else { "after-read" };
-            return Err(Fail::new(format!("C15/alias-soundness/unknown-anchor/{}", route), detail(json!({"reread_exit": r.code, "reread_stderr": err_head(&r)}))));
+            Some(Fail::new(format!("C15/alias-soundness/unknown-anchor/{}", route), detail(json!({"reread_exit": r.code, "reread_stderr": err_head(&r)}))))
+        } else {
+            Some(Fail::new(format!("C15/reread-error/{}", err_shape(&err_head(&r))), detail(json!({"reread_exit": r.code, "reread_stderr": err_head(&r)}))))
         }
-        return Err(Fail::new(format!("C15/reread-error/{}", err_shape(&err_head(&r))), detail(json!({"reread_exit": r.code, "reread_stderr": err_head(&r)}))));
-    }
-    let rvals = match jsonval::parse_stream(&r.stdout) {
-        Ok(v) => v,
-        Err(e) => return Err(Fail::new("C15/reread-json-unparseable", detail(json!({"error": e.msg, "reread_output": trunc(&r.stdout_str(), 600)})))),
+    } else {
+        match jsonval::parse_stream(&r.stdout) {
+            Err(e) => Some(Fail::new("C15/reread-json-unparseable", detail(json!({"error": e.msg, "reread_output": trunc(&r.stdout_str(), 600)})))),
+            Ok(rvals) if rvals.len() != jvals.len() => Some(Fail::new(
+                "C15/reread-differs/document-count",
+                detail(json!({"expected_documents": jvals.len(), "actual_documents": rvals.len(), "reread_output": trunc(&r.stdout_str(), 600)})),
+            )),
+            Ok(rvals) => {
+                let mut f = None;
+                for (i, (a, b)) in jvals.iter().zip(rvals.iter()).enumerate() {
+                    if let Some(d) = diff(a, b, &mut vec![]) {
+                        f = Some(Fail::new(
+                            format!("C15/reread-differs/{}", d.what),
+                            detail(json!({"document": i, "path": d.path, "expected": d.expected, "actual": d.actual, "reread_output": trunc(&r.stdout_str(), 600)})),
+                        ));
+                        break;
+                    }
+                }
+                f
+            }
+        }
     };
-    if rvals.len() != jvals.len() {
-        return Err(Fail::new(
-            "C15/reread-differs/document-count",
-            detail(json!({"expected_documents": jvals.len(), "actual_documents": rvals.len(), "reread_output": trunc(&r.stdout_str(), 600)})),
-        ));
-    }
-    for (i, (a, b)) in jvals.iter().zip(rvals.iter()).enumerate() {
-        if let Some(d) = diff(a, b, &mut vec![]) {
-            return Err(Fail::new(
-                format!("C15/reread-differs/{}", d.what),
-                detail(json!({"document": i, "path": d.path, "expected": d.expected, "actual": d.actual, "reread_output": trunc(&r.stdout_str(), 600)})),
-            ));
+    if let Some(f) = failure {
+        if f.sig.starts_with("C15/alias-soundness/") {
+            return Err(f);
         }
+        // (1) documented loader limitation (docs/compliance/yaml/limitations.md, "A key run
+        //     that ends before its `:`": `b #c: d` -> KeyWithoutValue; `- *a #c:` fails the
+        //     same way with "expected ':' after key"): a comment containing `: ` (or ending in
+        //     `:`) was re-emitted on a line that has no `key:` of its own. Counted as such
+        //     only if the output reads back correctly once just those comments are cut.
+        if let Some(y2) = strip_colon_comments_on_keyless_lines(&y.stdout) {
+            if reread_matches(&y2, st) {
+                return Ok(Outcome::DocumentedLimit);
+            }
+        }
+        // (2) C14's open loader finding (`a:` with an empty value followed by a column-0 line
+        //     that starts with a quoted key) reached through the emitter's own output: the
+        //     output reads back correctly once those empty values are spelled `null`.
+        if let Some(y3) = spell_empty_values_before_col0_quoted_keys(&y.stdout) {
+            if reread_matches(&y3, st) {
+                let mut d = f.detail.clone();
+                if let Some(m) = d.as_object_mut() {
+                    m.insert("symptom".into(), json!(f.sig));
+                    m.insert("attributed_because".into(), json!("the output reads back correctly once `key:` lines followed by a column-0 quoted key are written `key: null`"));
+                }
+                return Err(Fail::new(SIG_LOADER_COL0, d));
+            }
+        }
+        return Err(f);
     }
     match alias_soundness(&y.stdout, &jvals) {
         Ok(a) => Ok(Outcome::Reread { aliases: a.aliases, anchors: a.anchors }),
